@@ -73,7 +73,10 @@ struct ChannelSlot {
 
 impl ChannelSlot {
     fn new(mio_channel_bound: usize, channel_id: u16) -> (ChannelSlot, IoLoopHandle) {
-        let (mio_tx, mio_rx) = mio_sync_channel(mio_channel_bound);
+        // A bound of 0 would make this a rendezvous channel: mio-extras only notifies the
+        // receiving side after the underlying send returns, and a rendezvous send does not
+        // return until the receiver takes the message, so the first send would block forever.
+        let (mio_tx, mio_rx) = mio_sync_channel(mio_channel_bound.max(1));
 
         // Bound of 2 is intentional here. The normal case for this channel is that it
         // will have at most 1 message in it (the response to a synchronous RPC call).
